@@ -28,13 +28,14 @@ type FnResult struct {
 	Loops    int
 	Contract *Contract
 	Axioms   []string
+	Lemmas   []string
 	RetReach string
 }
 
 func newEnc(P *Program, fn *ssa.Function, c *Contract, W *World) *Enc {
 	return &Enc{P: P, W: W, fn: fn, C: c, vals: map[ssa.Value]Val{}, notes: map[string]bool{}, unmod: map[string]bool{},
 		externs: map[string]bool{}, inlines: map[string]bool{}, oblCount: map[string]int{}, writes: map[*ssa.BasicBlock]map[string]bool{},
-		specSigs: map[string]*specSig{}, inlineStack: map[*ssa.Function]bool{}, ranges: map[*ssa.Range]*rangeModel{}}
+		specSigs: map[string]*specSig{}, inlineStack: map[*ssa.Function]bool{}, ranges: map[*ssa.Range]*rangeModel{}, lemmasUsed: map[string]bool{}, protected: map[*loopInfo][]*ssa.Range{}}
 }
 
 func (e *Enc) assumeAllocated(st *bstate, v Val) {
@@ -101,12 +102,80 @@ func (e *Enc) encodeTop() {
 	e.encodeFrame(fr, st)
 }
 
+// lemmaFormula renders "forall params. requires ==> ensures" of a lemma.
+func (e *Enc) lemmaFormula(lm *Lemma) (string, error) {
+	env := e.newSpecEnv(nil, nil)
+	env.pkg = e.P.tpkgs[lm.Pkg]
+	var bs []string
+	for _, p := range lm.Params {
+		t, err := e.evalType(p.Type, env.pkg)
+		if err != nil {
+			return "", err
+		}
+		srt := e.specSort(t)
+		vn := "l!" + sanitize(p.Name)
+		env.binders[p.Name] = SVal{T: vn, Typ: t, Sort: srt}
+		bs = append(bs, fmt.Sprintf("(%s %s)", vn, srt))
+	}
+	var pre, post []string
+	for _, cl := range lm.Requires {
+		f, err := env.formula(cl.Expr)
+		if err != nil {
+			return "", err
+		}
+		pre = append(pre, f)
+	}
+	for _, cl := range lm.Ensures {
+		f, err := env.formula(cl.Expr)
+		if err != nil {
+			return "", err
+		}
+		post = append(post, f)
+	}
+	return fmt.Sprintf("(forall (%s) %s)", strings.Join(bs, " "), sImp(sAnd(pre...), sAnd(post...))), nil
+}
+
+func lemmaCalls(lm *Lemma) []string {
+	var out []string
+	for _, cl := range append(append([]*Clause{}, lm.Requires...), lm.Ensures...) {
+		out = append(out, calledNames(cl.Expr)...)
+	}
+	return out
+}
+
 func (e *Enc) axiomsText() (string, []string) {
 	var used []string
 	var b strings.Builder
 	done := map[string]bool{}
 	for changed := true; changed; {
 		changed = false
+		for _, ln := range e.P.reg.LemmaOrder {
+			lm := e.P.reg.Lemmas[ln]
+			if ln == e.curLemma {
+				break // while proving a lemma only earlier lemmas are available (no circular proofs)
+			}
+			if done["lemma:"+ln] {
+				continue
+			}
+			rel := false
+			for _, n := range lemmaCalls(lm) {
+				if _, ok := e.specSigs[n]; ok {
+					rel = true
+				}
+			}
+			if !rel || e.P.tpkgs[lm.Pkg] == nil && lm.Pkg != "" {
+				continue
+			}
+			done["lemma:"+ln] = true
+			changed = true
+			f, err := e.lemmaFormula(lm)
+			if err != nil {
+				e.errors = append(e.errors, fmt.Sprintf("%s: lemma %s: %v", lm.Src, ln, err))
+				continue
+			}
+			fmt.Fprintf(&b, "(assert %s) ; lemma %s\n", f, ln)
+			e.lemmasUsed[ln] = true
+		}
 		for _, ax := range e.P.reg.Axioms {
 			if done[ax.Name] {
 				continue
@@ -207,6 +276,10 @@ func verifyFunction(P *Program, key string, opts *runOpts) *FnResult {
 	for n := range e.inlines {
 		res.Inlines = append(res.Inlines, n)
 	}
+	for n := range e.lemmasUsed {
+		res.Lemmas = append(res.Lemmas, n)
+	}
+	sort.Strings(res.Lemmas)
 	sort.Strings(res.Notes)
 	sort.Strings(res.Unmod)
 	sort.Strings(res.Externs)
@@ -277,7 +350,8 @@ func dischargeAll(res *FnResult, opts *runOpts) {
 			}
 			t0 := time.Now()
 			r := discharge(script, dir, o.Name, opts.timeout, opts.seed, false)
-			o.Time = time.Since(t0).Seconds()
+			o.Time = r.time
+			o.Wall = time.Since(t0).Seconds()
 			o.Solver = r.solver
 			switch r.status {
 			case "unsat":
@@ -331,4 +405,137 @@ func dropQuantified(script string) string {
 		b.WriteString("\n")
 	}
 	return b.String()
+}
+
+// verifyLemma proves a lemma by induction: assuming the requires and the declared
+// induction hypotheses (the lemma itself at arguments with a smaller measure), the
+// ensures must follow.
+func verifyLemma(P *Program, name string, opts *runOpts) *FnResult {
+	res := &FnResult{Key: "lemma " + name, Display: "lemma." + name}
+	lm := P.reg.Lemmas[name]
+	if lm == nil {
+		res.Errors = append(res.Errors, "lemma not found: "+name)
+		return res
+	}
+	W := newWorld()
+	e := newEnc(P, nil, nil, W)
+	e.curLemma = name
+	env := e.newSpecEnv(nil, nil)
+	env.pkg = P.tpkgs[lm.Pkg]
+	fail := func(err error) *FnResult {
+		res.Errors = append(res.Errors, fmt.Sprintf("%s: lemma %s: %v", lm.Src, name, err))
+		return res
+	}
+	var psorts []string
+	for _, p := range lm.Params {
+		t, err := e.evalType(p.Type, env.pkg)
+		if err != nil {
+			return fail(err)
+		}
+		srt := e.specSort(t)
+		c := e.fresh("lp."+p.Name, srt)
+		env.binders[p.Name] = SVal{T: c, Typ: t, Sort: srt}
+		psorts = append(psorts, srt)
+	}
+	conj := func(cls []*Clause, en *SpecEnv) (string, error) {
+		var fs []string
+		for _, cl := range cls {
+			f, err := en.formula(cl.Expr)
+			if err != nil {
+				return "", err
+			}
+			fs = append(fs, f)
+		}
+		return sAnd(fs...), nil
+	}
+	pre, err := conj(lm.Requires, env)
+	if err != nil {
+		return fail(err)
+	}
+	e.assert(pre)
+	st := &bstate{reach: "true", heap: map[string]string{}}
+	var measure string
+	if lm.Decreases != nil {
+		m, err := env.tr(lm.Decreases)
+		if err != nil {
+			return fail(err)
+		}
+		measure = m.T
+	}
+	for i, ind := range lm.Inducts {
+		if len(ind.Args) != len(lm.Params) {
+			return fail(fmt.Errorf("induct: wrong number of arguments"))
+		}
+		sub := env.clone()
+		for k, a := range ind.Args {
+			v, err := env.tr(a)
+			if err != nil {
+				return fail(err)
+			}
+			if v.Sort == "nil" {
+				v = env.nilOf(SVal{Sort: psorts[k]})
+			}
+			if isView(psorts[k]) && v.Sort == "Slice" {
+				if v, err = env.toView(v); err != nil {
+					return fail(err)
+				}
+			}
+			sub.binders[lm.Params[k].Name] = v
+		}
+		when := "true"
+		if ind.When != nil {
+			if when, err = env.formula(ind.When); err != nil {
+				return fail(err)
+			}
+		}
+		ipre, err := conj(lm.Requires, sub)
+		if err != nil {
+			return fail(err)
+		}
+		ipost, err := conj(lm.Ensures, sub)
+		if err != nil {
+			return fail(err)
+		}
+		if measure == "" {
+			return fail(fmt.Errorf("induct needs a decreases clause"))
+		}
+		m2, err := sub.tr(lm.Decreases)
+		if err != nil {
+			return fail(err)
+		}
+		o := e.oblige(st, "decreases", fmt.Sprintf("%s.induct%d", name, i), sImp(when, sAnd(app("<=", "0", m2.T), app("<", m2.T, measure))), 0)
+		if o != nil {
+			o.Detail = ind.Text
+		}
+		// induction hypothesis
+		e.assert(sImp(sAnd(when, ipre), ipost))
+	}
+	for i, cl := range lm.Ensures {
+		f, err := env.formula(cl.Expr)
+		if err != nil {
+			return fail(err)
+		}
+		o := e.oblige(st, "lemma", fmt.Sprintf("%s.%d", name, i), f, 0)
+		if o != nil {
+			o.Detail = cl.Text
+		}
+	}
+	for _, o := range e.obls {
+		o.Fn = res.Display
+		o.Name = strings.Replace(o.Name, "<nil>", "lemma", 1)
+	}
+	res.Header, res.Axioms = e.header()
+	res.Items = e.items
+	res.Obls = e.obls
+	res.Errors = append(res.Errors, e.errors...)
+	for n := range e.lemmasUsed {
+		res.Lemmas = append(res.Lemmas, n)
+	}
+	res.RetReach = "true"
+	res.Vacuity = "skipped"
+	res.Contract = &Contract{Key: res.Key}
+	if opts != nil && !opts.noSolve {
+		dischargeAll(res, opts)
+	}
+	return res
 }
